@@ -3,6 +3,8 @@
 -/
 import Frost.Model.Rerand
 import Frost.Proofs.Honest
+import Frost.Model.RerandPkg
+import Frost.Proofs.Wire
 
 set_option linter.unusedSectionVars false
 
@@ -150,6 +152,40 @@ theorem randomizer_eq (S : Suite F E) (seed : Bytes) (comms : List (F × Signing
     (enc : Bytes) (he : encodeGroupCommitments S comms = .ok enc) :
     randomizerRegenerate S seed comms = Outcome.ofOption (S.Hrand (seed ++ enc)) .SerializationError := by
   unfold randomizerRegenerate; simp [he]
+
+/-! ### the deprecated package-based coordinator entry point -/
+
+/-- `Randomizer::new(rng, &signing_package)`: the hash preimage is the encoding of the fresh
+    scalar followed by the postcard serialization of the whole signing package. -/
+theorem packageRandomizer_eq (S : Suite F E) (hdr : Bytes) (r0 : F) (pkg : SigningPackage F E)
+    (b : Bytes) (hb : Wire.encPackage S hdr pkg = some b) :
+    randomizerFromScalarAndPackage S hdr r0 pkg
+      = Outcome.ofOption (S.Hrand (S.encScalar r0 ++ b)) .SerializationError := by
+  unfold randomizerFromScalarAndPackage; simp [hb]
+
+/-- **…and that preimage determines the coordinator scalar's encoding, the exact commitment set
+    and the message**: two well-formed signing packages (what `SigningPackage::new` builds from
+    commitments the decoders accept) whose preimages coincide are the same package.  Rests on the
+    round-trip law of the wire format (`Wire.rt_package`). -/
+theorem packagePreimage_injective (S : Suite F E) (hdr : Bytes) {okS : F → Prop} {okE : E → Prop}
+    (L : Wire.BaseLaws S.toBase okS okE) (r0 r0' : F) (p p' : SigningPackage F E) (b b' : Bytes)
+    (hp : ∀ kv ∈ p.commitments, okS kv.1 ∧ kv.1 ≠ 0 ∧ okE kv.2.hid ∧ okE kv.2.bnd)
+    (hp' : ∀ kv ∈ p'.commitments, okS kv.1 ∧ kv.1 ≠ 0 ∧ okE kv.2.hid ∧ okE kv.2.bnd)
+    (hs : SMap.ofList S.idLt p.commitments = p.commitments)
+    (hs' : SMap.ofList S.idLt p'.commitments = p'.commitments)
+    (hn : p.commitments.length < 2 ^ 64) (hm : p.message.length < 2 ^ 64)
+    (hn' : p'.commitments.length < 2 ^ 64) (hm' : p'.message.length < 2 ^ 64)
+    (hb : Wire.encPackage S hdr p = some b) (hb' : Wire.encPackage S hdr p' = some b')
+    (h : S.encScalar r0 ++ b = S.encScalar r0' ++ b') :
+    S.encScalar r0 = S.encScalar r0' ∧ p = p' := by
+  have hl : (S.encScalar r0).length = (S.encScalar r0').length := by
+    rw [L.scalar_len, L.scalar_len]
+  obtain ⟨h1, h2⟩ := List.append_inj h hl
+  refine ⟨h1, ?_⟩
+  have d := Wire.rt_package (hdr := hdr) L p hp hs hn hm b [] hb
+  have d' := Wire.rt_package (hdr := hdr) L p' hp' hs' hn' hm' b' [] hb'
+  rw [h2, d'] at d
+  simpa using d.symm
 
 /-! Non-vacuity (ℚ, `G = 1`): a signature valid under the randomized key `(2+3)•G` with
     `c = 1` (`z = R + 5`) verifies under the original key iff `5 = c'·2`. -/
